@@ -193,12 +193,18 @@ Fixpoint nat_list_eqb (a b : list nat) : bool :=
   | _, _ => false
   end.
 
-(** the checker: case fields -> observation made on the C -> verdict *)
+(** the checker: case fields -> observation made on the C -> verdict.
+    The result of a filter the case runs for real (stage 2) is taken from the model of that filter; what the checker
+    demands of it is only the discipline of the interface: a filter that ends the evaluation with "denied, I have
+    answered myself" must have sent one 5xx reply ([reply_fits DRejectByFilter]). *)
 Definition spec_ok_C12 (outcomes : bytes) (umode : N) (ufile : bytes) (dmode : N) (dfile : bytes)
-                       (gmode : N) (gfile : bytes) (key : bytes) (obs : observation) : verdict :=
-  match decode_outcomes outcomes, load_level gmode gfile, load_configs umode ufile dmode dfile with
-  | Some outc, Some gc, Some (uc, dc) =>
-      if negb (Nat.eqb (length outc) NFILTERS) then VPre else
+                       (gmode : N) (gfile : bytes) (key : bytes) (sess : bytes) (obs : observation) : verdict :=
+  match decode_outcomes outcomes, decode_session sess, load_level gmode gfile, load_configs umode ufile dmode dfile with
+  | Some slots, Some s, Some gc, Some (uc, dc) =>
+      if negb (Nat.eqb (length slots) NFILTERS) then VPre else
+      match all_results slots s uc dc gc with
+      | None => VPre
+      | Some results =>
       let fh := setting_on (doc_setting false (level_says uc KEY_FAIL_HARD) (level_says dc KEY_FAIL_HARD) Unset) in
       let ne := setting_on (doc_setting false (level_says uc KEY_NONEXIST) (level_says dc KEY_NONEXIST) Unset) in
       match fh, ne with
@@ -206,7 +212,7 @@ Definition spec_ok_C12 (outcomes : bytes) (umode : N) (ufile : bytes) (dmode : N
           match obs with
           | OErr => VBad
           | ODone replies ok trace p1v p1t p2v p2t =>
-              let frs := map (fun id => nth id outc FPassed) RCPT_CBS in
+              let frs := map fst (map (fun id => nth id results passed) RCPT_CBS) in
               let '(o, n) := doc_combine failhard nonexist frs false 0 in
               if reply_fits o replies ok
                  && nat_list_eqb trace (firstn n RCPT_CBS)
@@ -217,18 +223,37 @@ Definition spec_ok_C12 (outcomes : bytes) (umode : N) (ufile : bytes) (dmode : N
           end
       | _, _ => VPre
       end
-  | _, _, _ => VPre
+      end
+  | _, _, _, _ => VPre
   end.
 
 (** the observation the model's result stands for (what the harness prints for it) *)
-Definition FILTER_MSG_HEAD : bytes := [53; 53; 52; 32; 53; 46; 55; 46; 49]%N.  (* "554 5.7.1", the stand-in's own reply *)
-
 Definition observe (r : case_result) : option observation :=
   match r with
   | CGlobalErr | CCtrlErr => Some OErr
   | CBadCase => None
-  | CDone res trace fmsg p1 p2 =>
-      Some (ODone ((if fmsg then [FILTER_MSG_HEAD] else []) ++
-                   match rr_reply res with RNone => [] | RLine t => [head9 t] end)
+  | CDone res trace fmsgs p1 p2 =>
+      Some (ODone (map head9 fmsgs ++ match rr_reply res with RNone => [] | RLine t => [head9 t] end)
                   (rr_ok res) trace (setting_value p1) (setting_type p1) (setting_value p2) (setting_type p2))
+  end.
+
+(** Finding F-C12-3, the class of cases: the real cb_spf is in the table, the SPF status is "temporary error", an
+    spfpolicy is in force and fail_hard_on_temp is not: cb_spf then answers 451 itself and reports "denied with
+    message", which ends the evaluation, so a permanent denial of a later filter cannot win and the reply the client
+    gets for the "denied" state is a 4xx. *)
+Definition spf_temp_class (slots : list slot) (s : session) (uc dc gc : list bytes) : bool :=
+  match nth ID_SPF slots (Standin FPassed) with
+  | RealFilter =>
+      N.eqb (s_spf s) SPF_TEMPERROR
+      && (0 <? setting_value (getsettingglobal uc dc gc KEY_SPFPOLICY))%Z
+      && (setting_value (getsetting uc dc gc KEY_SPF_FAIL_HARD) <=? 0)%Z
+  | Standin _ => false
+  end.
+
+(** the class as a predicate on the case fields ([false] for cases that are refused anyway) *)
+Definition in_spf_temp_class (outcomes : bytes) (umode : N) (ufile : bytes) (dmode : N) (dfile : bytes)
+                             (gmode : N) (gfile : bytes) (sess : bytes) : bool :=
+  match decode_outcomes outcomes, decode_session sess, load_level gmode gfile, load_configs umode ufile dmode dfile with
+  | Some slots, Some s, Some gc, Some (uc, dc) => spf_temp_class slots s uc dc gc
+  | _, _, _, _ => false
   end.
